@@ -293,7 +293,7 @@ func Array[V any](arguments ...any) col.ArrayLike[V] {
 	switch {
 	case size > 0:
 		array = class.Make(size)
-	case len(values) > 0:
+	case values != nil:
 		array = class.MakeFromArray(values)
 	case sequence != nil:
 		array = class.MakeFromSequence(sequence)
